@@ -61,6 +61,16 @@ func schedCells() []schedCell {
 			newProcs(e, ps, 0)
 		}},
 		{"ik-revoked", 2, 1, 0, func(e *env, ps []*proc) { e.producer("P", 1); e.revoke("ik"); time.Sleep(2 * tP); newProcs(e, ps, 0) }},
+		// revoked inside the creation-stamp window the keys were created in: a replacement gets the same stamp, its
+		// insert is refused and the stored (revoked) key is what everybody adopts
+		{"sk-revoked-in-window", 2, 1, 0, func(e *env, ps []*proc) { e.producer("P", 1); e.revoke("sk"); newProcs(e, ps, 0) }},
+		{"ik-revoked-in-window", 2, 1, 0, func(e *env, ps []*proc) { e.producer("P", 1); e.revoke("ik"); newProcs(e, ps, 0) }},
+		{"ik+sk-revoked-in-window", 2, 1, 0, func(e *env, ps []*proc) {
+			e.producer("P", 1)
+			e.revoke("sk")
+			e.revoke("ik")
+			newProcs(e, ps, 0)
+		}},
 		{"sk-revoked", 2, 1, 0, func(e *env, ps []*proc) { e.producer("P", 1); e.revoke("sk"); time.Sleep(2 * tP); newProcs(e, ps, 0) }},
 		{"warm-stale-p0", 2, 1, 0, func(e *env, ps []*proc) {
 			// process 0 is long-lived with warm caches that have gone stale and whose keys expired meanwhile
